@@ -466,6 +466,42 @@ pub fn run(tier: &str) -> i32 {
     rep.transitions += mcases.len() as u64 * 2;
     acc = Acc::merge(acc, mr.acc);
 
+    // ---- membership of a list value in a list of lists: the value is compared as a whole, `X in [l1..ln]` iff X equals some li;
+    // `not in` and a prefix `not` hold exactly when `in` does not
+    let lpool: Vec<V> = vec![V::List(vec![]), V::List(vec![i(1)]), V::List(vec![i(1), i(2)]), V::List(vec![i(2), i(1)]), V::List(vec![i(5), i(6)]), V::List(vec![s("a")]), V::List(vec![f(1.0)]), V::List(vec![V::List(vec![i(1), i(2)])]), V::List(vec![i(1), V::List(vec![i(2)])]), V::List(vec![i(1), i(2), i(3)])];
+    let mut lls: Vec<Vec<V>> = vec![];
+    for a in &lpool {
+        lls.push(vec![a.clone()]);
+        for b in &lpool {
+            lls.push(vec![a.clone(), b.clone()]);
+            if thorough {
+                for c in &lpool {
+                    lls.push(vec![a.clone(), b.clone(), c.clone()]);
+                }
+            }
+        }
+    }
+    let lcases: Vec<(V, Vec<V>)> = lpool.iter().flat_map(|x| lls.iter().map(move |ls| (x.clone(), ls.clone()))).collect();
+    let lr = crate::par::run(lcases.len(), 0, None, Acc::new, |k, acc| {
+        let (x, ls) = &lcases[k];
+        for (not, opneg) in [(false, false), (false, true), (true, false), (true, true)] {
+            let c = Clause::Binary { not, some: false, q: vec![key("x")], op: BinOp::In, opneg, rhs: Arg::Lit(V::List(ls.clone())), msg: None };
+            let t = print_file(&file1(rule("r", vec![vec![c]])));
+            let d = V::Map(vec![("x".into(), x.clone())]).json();
+            let o = lib_run(&t, &d);
+            acc.traces += 1;
+            let is_member = ls.iter().any(|e| struct_eq(e, x));
+            let want = if is_member != (opneg != not) { St::Pass } else { St::Fail };
+            *acc.outcomes.entry(format!("list-member-{}", o.class())).or_insert(0) += 1;
+            if !matches!(&o, Obs::Ok(s, _) if *s == want) {
+                acc.violate("list-in-list-of-lists", format!("x={} `{}`: expected {} observed {}", x.json(), t.trim(), want.txt(), o.short()), json!({"kind":"lib","rules":t,"data":d,"expected":format!("file={} r={}", want.txt(), want.txt()),"observed":o.short()}));
+            }
+        }
+    }, Acc::merge);
+    rep.states += lcases.len() as u64 * 4;
+    rep.transitions += lcases.len() as u64 * 4;
+    acc = Acc::merge(acc, lr.acc);
+
     // ---- regex table
     let pats = ["a", "^a", "a$", "^a$", "a.c", "a*", "ab+", "(ab)+c", "[a-c]+", "[^a]", "\\d+", "a|b", "(?i)AB", "^$", "ab{2}c", "b{2}", "a{1,2}b", "x{0}a", "\\d{3}", "(ab){2}", "b{2,}", "ab{2}", "a{2}$"];
     let strs = ["", "a", "ab", "abc", "ba", "aXc", "ababc", "AB", "xaby", "123", "a1", "é", "abab", "c", "B", "a\nc", "abbc", "xabbcx", "ab{2}c", "abbbc", "aab", "b{2}", "a{2}"];
